@@ -1,5 +1,8 @@
 import Ivg.Lemmas.Decoder2
-import Ivg.Gen.Tie
+import Ivg.Gen.Tie.DrawOps
+import Ivg.Gen.Tie.DecodeErrors
+import Ivg.Gen.Tie.Magic
+import Ivg.Gen.Tie.ParamWrites
 import Ivg.Obligations
 /-!
 # C02 — decoding is total, linear, delivers nothing before the metadata is valid, and is prefix-monotone
@@ -18,7 +21,7 @@ The theorems are about the executable model `Ivg.Dec` (one traversal `decodeCore
 By construction (no theorem): the three entry points are total Lean functions on every `Bytes`
 value, pure (the input cannot be modified; on the Go side the write frame is
 `Ivg.Gen.Tie.param_writes_frame`), and their failure value has type `DecErr`, whose thirteen
-constructors are the thirteen `DecodeError` values (`Ivg.Gen.Tie.errorStrings_tie`).  The model
+constructors are the thirteen `DecodeError` values (`Ivg.Gen.Tie.decodeErrors_tie`).  The model
 loops carry a fuel argument; `loop_terminates` / `chunks_terminate` show the fuel the entry points
 supply (input length + 1) is never exhausted, because every instruction and every chunk consumes at
 least one byte (`instruction_consumes`).  The destination is abstract: `decode` returns the list of
@@ -187,7 +190,7 @@ example : (decode [] (exIcon.take 22)).1.length = 3 ∧ (decode [] (exIcon.take 
 * "without panicking / leave the input unmodified / either succeed or return a DecodeError" hold by
   construction of the model (total pure functions into `Option DecErr`); the statement about the Go
   code rests on the differential suite and on `Ivg.Gen.Tie.param_writes_frame`,
-  `Ivg.Gen.Tie.errorStrings_tie`.
+  `Ivg.Gen.Tie.decodeErrors_tie`.
 * Decoding "into a Renderer or an Encoder": the model delivers to an abstract recorder; composition
   with the renderer/encoder models is the subject of other properties.
 -/
@@ -202,5 +205,5 @@ end Ivg.Props.C02
   Ivg.Props.C02.invalid_metadata_delivers_nothing, Ivg.Props.C02.valid_metadata_delivers_reset,
   Ivg.Props.C02.instruction_stable, Ivg.Props.C02.failing_instruction_prefix,
   Ivg.Props.C02.prefix_monotone,
-  Ivg.Gen.Tie.drawOps_tie, Ivg.Gen.Tie.magic_tie, Ivg.Gen.Tie.errorStrings_tie,
+  Ivg.Gen.Tie.drawOps_tie, Ivg.Gen.Tie.magic_tie, Ivg.Gen.Tie.decodeErrors_tie,
   Ivg.Gen.Tie.param_writes_frame]
